@@ -458,6 +458,41 @@ func runBest(dir string, seed uint64, n int) {
 			sub := permute(r, d[:k])
 			copy(d, sub)
 		}
+		if r.Chance(0.12) {
+			// several straight flushes at once (seed C10j: a scan that stops at the FIRST straight flush): a run of
+			// 6..9 consecutive ranks of one suit in front of the deck, in random order, so that hole and board are drawn from it
+			const ranks = "23456789TJQKA"
+			suit := "SHDC"[r.Intn(4)]
+			lo := 0
+			if table == "short" {
+				lo = 4
+			}
+			l := 6 + r.Intn(4)
+			st := lo + r.Intn(len(ranks)-lo-l+1)
+			in := map[string]bool{}
+			run := []string{}
+			for k := st; k < st+l; k++ {
+				c := string(suit) + string(ranks[k])
+				in[c] = true
+				run = append(run, c)
+			}
+			rest := []string{}
+			for _, c := range d {
+				if !in[c] {
+					rest = append(rest, c)
+				}
+			}
+			if len(rest)+len(run) == len(d) {
+				run = permute(r, run)
+				if r.Chance(0.3) { // one stranger among them
+					run = append(run, rest[0])
+					rest = rest[1:]
+					run = permute(r, run)
+				}
+				d = append(run, rest...)
+				o.Count("best.straight_flush_run")
+			}
+		}
 		boardN := 3 + r.Intn(3)
 		hole := d[:holeN]
 		board := d[holeN : holeN+boardN]
